@@ -501,6 +501,8 @@ pub fn run() -> i32 {
         }
     }
     println!("conformance: {} observations compared against the real kernel, {} divergent", total, bad);
+    let path = format!("{}/sim/conformance_result.json", crate::driver::verif_dir());
+    let _ = std::fs::write(&path, format!("{{\"observations\": {}, \"divergent\": {}, \"scripts\": {}}}", total, bad, NSCRIPTS));
     if bad > 0 {
         eprintln!("HARNESS-ERROR: the simulated kernel diverges from the real one");
         2
